@@ -185,6 +185,10 @@ type rtCase struct {
 	// clock ran ahead when the shard became idle and was stepped back since): minutes by which it is ahead, 0 = not.
 	// The harness rewrites only the IdleAt member of the store file.
 	Ahead []int `json:"ahead,omitempty"`
+	// Unwritable[i]: the restarts after step i happen while the store cannot be written (the disk is still full, the
+	// volume is read-only for the moment): the temp file's place is taken by a directory.  The store is readable: the
+	// start succeeds and resumes it
+	Unwritable []bool `json:"unwritable,omitempty"`
 }
 
 func runRoundTrip(rec *vkit.Recorder, c *rtCase) []vkit.Violation {
@@ -220,8 +224,17 @@ func runRoundTrip(rec *vkit.Recorder, c *rtCase) []vkit.Violation {
 				}
 			}
 		}
+		blocked := i < len(c.Unwritable) && c.Unwritable[i]
+		block := filepath.Join(dir, "kvass-shard.json.tmp")
+		if blocked {
+			_ = os.MkdirAll(filepath.Join(block, "occupied"), 0755)
+			rec.Class("restart-while-the-store-cannot-be-written")
+		}
 		// "restart": a fresh manager on the same directory (possibly twice)
 		for r := 0; r < 2; r++ {
+			if blocked && r == 1 {
+				_ = os.RemoveAll(block) // the second start finds the volume writable again
+			}
 			n := newTMWired(dir)
 			if err := n.Load(); err != nil {
 				return append(vs, vkit.Violation{Key: "C09/restart-load-fails", Msg: fmt.Sprintf("step %d restart %d: %v", i, r, err)})
@@ -265,6 +278,9 @@ func TestC09RoundTrip(t *testing.T) {
 			}
 			c.Seq = append(c.Seq, genAssign(t, fmt.Sprintf("a%d", i), 8))
 			c.Ahead = append(c.Ahead, 0)
+		}
+		for i := 0; i < n; i++ {
+			c.Unwritable = append(c.Unwritable, rapid.IntRange(0, 3).Draw(t, fmt.Sprintf("a%d-unwritable", i)) == 0)
 		}
 		if bad := rec.Filter(runRoundTrip(rec, c)); len(bad) > 0 {
 			p := vkit.SaveViolation("C09", "TestC09RoundTrip", c, bad, nil)
